@@ -239,6 +239,20 @@ def union_rule(prog, rep):
     lp = sweep_l[0]
     ev = norm(lp.target)
     ifs = [x for x in lp.body if isinstance(x, ast.If)]
+
+    def _seed_guard(x):
+        # `if not acc: acc.append(e); continue` at the top of the sweep: the first event opens the output (same as seeding
+        # the output with the first element before the loop)
+        if x.orelse or len(x.body) != 2 or not isinstance(x.body[1], ast.Continue):
+            return False
+        b0 = x.body[0]
+        if not (isinstance(b0, ast.Expr) and isinstance(b0.value, ast.Call) and isinstance(b0.value.func, ast.Attribute) and b0.value.func.attr == "append" and len(b0.value.args) == 1 and norm(b0.value.args[0]) == ev):
+            return False
+        a_ = norm(b0.value.func.value)
+        return norm(x.test) in (f"not {a_}", f"len({a_}) == 0", f"{a_} == []")
+
+    if ifs and lp.body and lp.body[0] is ifs[0] and _seed_guard(ifs[0]) and len(ifs) > 1:
+        ifs = ifs[1:]
     tt = ifs[0].test
     from ..trace import deep
 
